@@ -843,7 +843,7 @@ func (env *SpecEnv) call(c *ast.CallExpr) Val {
 					t = fc.sc.fresh("held", "Bool")
 					env.st.locks[key] = t
 				} else {
-					t = "false"
+					t = fc.lockHeld(env.st, mon, x.A.Base)
 				}
 			}
 			return boolVal(t)
